@@ -122,14 +122,19 @@ ResultOf(g, st) == IF g.failed THEN (IF st.err = "closesent" \/ g.v.err = "close
 (* One program step: generate the call's tx with the strict model, then    *)
 (* take the envelope transition with it.                                   *)
 (***************************************************************************)
+MsgId == pc          \* the message id of the call at position pc
+
 Record(o, e, tx, st2) ==
   /\ bad' = (bad \/ IsBad(st2))
   /\ cs' = IF IsBad(st2) THEN cs ELSE << st2 >>
-  /\ rets' = Append(rets, [op |-> o.op, ok |-> IsNil(e), m |-> IF "m" \in DOMAIN o THEN o.m ELSE -1])
+  /\ rets' = Append(rets, [op |-> o.op, ok |-> IsNil(e),
+                            m |-> CASE o.op \in {"WM", "WJ", "WC"} -> MsgId
+                                    [] o.op = "WP" -> (IF St.wild \/ (St.open /\ IsDataT(pms[o.pm + 1].type)) THEN -1 ELSE 1000 + o.pm)
+                                    [] o.op = "CL" -> (IF St.open THEN St.mid ELSE -1)
+                                    [] OTHER -> -1])
   /\ wire' = wire \o SelectSeq(tx, LAMBDA it : it.t \in {"F", "WERR"})
   /\ nops' = nops + Cardinality({i \in 1..Len(tx) : tx[i].t \in {"SWD", "F", "WERR"}})
 
-MsgId == pc          \* the message id of the call at position pc
 
 DoNW(o) ==
   LET st == St
@@ -265,9 +270,17 @@ InvFailStop  == \A i \in 1..Len(wire) : wire[i].t = "WERR" => i = Len(wire)
 (* C20: no buffer is held when no message is open. *)
 InvPool == (cf.pool /\ ~St.open) => St.held = -1
 
-(* C01/C02: the messages completed on the wire are exactly the calls that  *)
-(* reported success, in call order.                                        *)
-InvDone ==
-  LET okCalls == SelectSeq(rets, LAMBDA r : r.ok /\ r.op \in {"WM", "WC", "WP"}) IN
-  \A i \in 1..Len(okCalls) : \E j \in 1..Len(St.done) : TRUE
+(* C01/C02/C09: every call that reported a message as sent (WriteMessage,   *)
+(* WriteJSON, WriteControl, WritePreparedMessage, Close of a writer) has    *)
+(* that message completely on the wire, in call order; a call that failed   *)
+(* never has.                                                               *)
+RECURSIVE IsSubSeq(_, _)
+IsSubSeq(a, b) == IF a = << >> THEN TRUE
+                  ELSE IF b = << >> THEN FALSE
+                  ELSE IF Head(a) = Head(b) THEN IsSubSeq(Tail(a), Tail(b)) ELSE IsSubSeq(a, Tail(b))
+DoneIds == [i \in 1..Len(St.done) |-> St.done[i].m]
+OkIds   == LET ok == SelectSeq(rets, LAMBDA r : r.ok /\ r.m >= 0) IN [i \in 1..Len(ok) |-> ok[i].m]
+FailedIds == {rets[i].m : i \in {j \in 1..Len(rets) : ~rets[j].ok /\ rets[j].m >= 0}}
+InvDone == /\ IsSubSeq(OkIds, DoneIds)
+           /\ \A i \in 1..Len(DoneIds) : DoneIds[i] < 1000 => DoneIds[i] \notin FailedIds   \* (a prepared message may be sent many times)
 =============================================================================
